@@ -573,6 +573,19 @@ let gen_history ~(profile : string) ~(len : int) : string =
     act (AClone (HReg O, tmp)); act (AStore (tmp, OReg O, nat_of_int 3));
     act (AAdopt (HSlot (OReg O, nat_of_int 3), HSlot (OReg O, nat_of_int 3)))
   end;
+  (* a node with a detached Clone impl (dangling Weak in the last slot): make_mut on it can
+     release the last outside handle of its group *)
+  if has 'a' && Random.int 3 = 0 then begin
+    let i = Random.int n in
+    if slot_used.(i) < 4 then begin
+      act (AWeakNew tmp); act (AStore (tmp, OReg (nat_of_int i), nat_of_int 3));
+      if Random.bool () then begin
+        (* give up the other outside handles so that make_mut's handle is the last one *)
+        for j = 0 to n - 1 do if j <> i then act (ADrop (nat_of_int j)) done;
+        act (AMakeMut (nat_of_int i))
+      end
+    end
+  end;
   (* weak handles, inside and outside *)
   if has 'w' then
     for _ = 1 to Random.int 4 do
